@@ -92,8 +92,9 @@ def tlc(
     """Run TLC (with the SHA override) on spec (.tla name or path)."""
     spec_path = spec if os.path.isabs(spec) else find_spec(spec)
     cfg_path = cfg if cfg and os.path.isabs(cfg) else find_spec(cfg or os.path.basename(spec_path)[:-4] + ".cfg")
-    meta = os.path.join(WORK, "tlc", "%s-%d-%d" % (tag, os.getpid(), int(time.time() * 1000) % 100000000))
-    os.makedirs(meta, exist_ok=True)
+    import tempfile
+    os.makedirs(os.path.join(WORK, "tlc"), exist_ok=True)
+    meta = tempfile.mkdtemp(prefix="%s-%d-" % (tag, os.getpid()), dir=os.path.join(WORK, "tlc"))
     cmd = [os.path.join(V, "bin", "vtlc"), "-metadir", meta, "-cleanup", "-noGenerateSpecTE", "-workers", str(workers)]
     if simulate:
         cmd += ["-simulate", "num=%d" % simulate]
